@@ -791,7 +791,7 @@ class SamplersCheck(PropertyCheck):
                     f"{list(self.kinds)} (class layouts <=4 classes, samples_per_class None|1..7, L,U<=3, three length modes, size None|k, W<=5 incl. W>n; thorough: a third of the cases with sizes <=24, W<=8, "
                     "~8% rejection corners); every case = all ranks 0..W-1 as separate objects x epochs via set_epoch; torch draws recorded and replayed "
                     "into the model; distinct = (kind, sizes, branch, outcome)")
-        res.exhaustive = True
+        res.exhaustive = self.tier == "thorough"     # the DistributedSampler / RandomSampler sweeps are complete; quick walks them with 2 of 4 epochs
         reals = [run_real(c) for c in cases]
         answers = self.driver.run([model_request(c, r) for c, r in zip(cases, reals)])
         for case, real, ans in zip(cases, reals, answers):
@@ -848,6 +848,7 @@ class SamplersCheck(PropertyCheck):
 
 class C12(SamplersCheck):
     pid = "C12"
+    claimed = True
     kinds = ("dist", "rand", "cb", "weighted")
     oracle = staticmethod(oracle_c12)
     props_modules = ["KDVerif.Props.C12"]
@@ -871,11 +872,14 @@ class C12(SamplersCheck):
                   "through the generator seed seed+epoch (injective in the epoch); repeat_interleave puts sample j//R into slot j. Model tied to the code by "
                   "differential correspondence on recorded torch draws each run, plus an independent oracle on the real streams.")
     level_note = ("trusted: Lean kernel + standard axioms; correspondence harness; torch RNG contract (permutation, seed determinism) is a hypothesis / recorded, "
-                  "'different seed gives a different draw' is not carried")
+                  "'different seed gives a different draw' is not carried (set_epoch_changes_seed is about the seed); theorems about the class-balanced / weighted "
+                  "samplers speak about accepted runs (model result ok) - that recorded tapes are accepted is what the correspondence checks; RandomSampler is "
+                  "covered for the repeated-augmentation clause only (its len/num_samples mismatch with num_repeats>1 is outside the claim)")
 
 
 class C13(SamplersCheck):
     pid = "C13"
+    claimed = True
     kinds = ("cb", "semi", "weighted")
     oracle = staticmethod(oracle_c13)
     props_modules = ["KDVerif.Props.C13"]
@@ -895,8 +899,10 @@ class C13(SamplersCheck):
                   "indices of every class, multiplicities inside a class differ by at most 1, ranks keep all but the < W trailing entries; the semi sampler's position i is "
                   "labeled iff i % (L+U) < L, each pool's subsequence is a prefix of a concatenation of permutations of the pool, length is rank independent and follows the "
                   "three length modes; weighted rank streams are duplicate free and pairwise disjoint; all indices valid. Correspondence on recorded torch draws + oracle each run.")
-    level_note = ("trusted: Lean kernel + standard axioms; correspondence harness; torch RNG contracts are hypotheses; 'differently seeded per rank' is a table test "
-                  "(ranks x epochs of the real int32 draws), labelled as such")
+    level_note = ("trusted: Lean kernel + standard axioms; correspondence harness; torch RNG contracts are hypotheses; theorems speak about accepted runs (model "
+                  "result ok; the per-class loop is proved never to run out of fuel) - acceptance of recorded tapes is checked by the correspondence; 'differently "
+                  "seeded per rank' = theorem semi_seed_per_rank (generator seed injective in the rank seed) + a table test that the real int32 rank/epoch seeds "
+                  "of generator seeds 0..N are pairwise distinct, labelled as a test; observation outside the claim: (rank a, epoch b) and (rank b, epoch a) share a seed")
 
     def extra(self, res):
         n = 1024 if self.tier == "quick" else 4096
